@@ -392,6 +392,8 @@ type w2Shape struct {
 	VClass [][]int    `json:"vclass"` // [J][I] 0 out, 1 in, 2 boundary
 	CClass [][][]int  `json:"cclass"` // [d+1][cj][ci], d = level - G in -1..1
 	Met    [][][5]int `json:"met"`    // per model edge: rectangles {level, ilo, ihi, jlo, jhi}
+	DeepC  []string   `json:"deepC"`  // by class of the level-(G+1) ancestor: demanded ContainsCell of a deeper cell
+	DeepI  []string   `json:"deepI"`  // ... demanded IntersectsCell ("T", "F", "U")
 }
 
 type w2Query struct {
@@ -1067,6 +1069,94 @@ func w2CheckCells(o *Out, c *w2Case, ob *w2Obj, tag string) {
 			}
 		}
 	}
+	w2CheckDeepCells(o, c, ob, reg, tag)
+}
+
+// w2CheckDeepCells queries cells placed relative to the cells of the region's own index: the
+// first and last leaf cell of every index cell, of its children and of its ancestors, and cells
+// on the way down to those leaves.  A cell of level G-1..G+1 has its tabulated class; a deeper
+// cell inherits the model's demands from the class of its level-(G+1) ancestor (Grid.tla,
+// DeepContains / DeepIntersects).
+func w2CheckDeepCells(o *Out, c *w2Case, ob *w2Obj, reg s2.Region, tag string) {
+	sh := ob.sh
+	if len(sh.DeepC) != 5 || len(sh.DeepI) != 5 {
+		return
+	}
+	var idx *s2.ShapeIndex
+	if ob.loop != nil {
+		idx = s2.VerifLoopIndex(ob.loop)
+	} else {
+		idx = s2.VerifPolygonIndex(ob.poly)
+	}
+	idx.Build()
+	targets := map[s2.CellID]bool{}
+	addLeaves := func(id s2.CellID) {
+		lo, hi := s2.CellID(w2RangeMin(id)), s2.CellID(w2RangeMax(id))
+		targets[lo], targets[hi] = true, true
+		// cells between the leaf and id
+		for _, leaf := range []s2.CellID{lo, hi} {
+			path := emb.RawPath(leaf)
+			for _, lv := range []int{29, 27, 22, (emb.RawLevel(id) + 31) / 2} {
+				if lv > emb.RawLevel(id) && lv <= 30 {
+					targets[emb.RawID(sh.Face, path[:lv])] = true
+				}
+			}
+		}
+	}
+	for _, ic := range s2.VerifIndexCells(idx) {
+		if int(uint64(ic.ID)>>61) != sh.Face {
+			continue
+		}
+		path := emb.RawPath(ic.ID)
+		addLeaves(ic.ID)
+		if len(path) < 30 {
+			for k := 0; k < 4; k++ {
+				addLeaves(emb.RawID(sh.Face, append(append([]int(nil), path...), k)))
+			}
+		}
+		for up := 1; up <= 2 && len(path)-up >= 0; up++ {
+			addLeaves(emb.RawID(sh.Face, path[:len(path)-up]))
+		}
+	}
+	for id := range targets {
+		level := emb.RawLevel(id)
+		ci, cj, _ := emb.IJ(id)
+		var wc, wi string // demanded answers
+		var cls int
+		switch {
+		case level < c.G-1:
+			continue
+		case level <= c.G+1:
+			cls = sh.CClass[level-c.G+1][cj][ci]
+			wc, wi = "U", tf(cls != 0)
+			if cls == 1 {
+				wc = "T"
+			} else if cls != 2 {
+				wc = "F"
+			}
+		default:
+			d := uint(level - (c.G + 1))
+			cls = sh.CClass[2][cj>>d][ci>>d]
+			wc, wi = sh.DeepC[cls], sh.DeepI[cls]
+		}
+		cell := s2.CellFromCellID(id)
+		gc, gi := reg.ContainsCell(cell), reg.IntersectsCell(cell)
+		o.Count("deep_cell_relations_checked")
+		what := fmt.Sprintf("cell %v (level %d, class %d of its level-%d ancestor) %s g=%d face=%d pieces=%v step=%d", id, level, cls, c06MinInt(level, c.G+1), ob.kind, c.G, sh.Face, sh.Pcs, sh.Step)
+		if wi != "U" && tf(gi) != wi {
+			o.Fail("w2/IntersectsCell-deep/"+tag+"/"+ob.kind, "IntersectsCell = %v, model %s: %s", gi, wi, what)
+		}
+		if wc != "U" && tf(gc) != wc {
+			o.Fail("w2/ContainsCell-deep/"+tag+"/"+ob.kind, "ContainsCell = %v, model %s: %s", gc, wc, what)
+		}
+	}
+}
+
+func c06MinInt(a, b int) int {
+	if a < b {
+		return a
+	}
+	return b
 }
 
 // ---- the C06 scene op --------------------------------------------------------------------------
@@ -1133,6 +1223,12 @@ func opC06Lattice(raw json.RawMessage, o *Out) {
 		Want  []string
 		Qs    [][2]emb.P3
 		Cross [][]string
+		Cells []struct {
+			C    [4]int // face, level, i, j
+			Cut  bool   // an edge of the loop certainly crosses a side of the cell
+			Cin  bool   // a corner of the cell is certainly inside the loop
+			Cout bool   // a corner is certainly outside
+		}
 	}
 	if err := json.Unmarshal(raw, &c); err != nil {
 		panic(err)
@@ -1262,6 +1358,13 @@ func opC06Lattice(raw json.RawMessage, o *Out) {
 		}
 	}
 
+	// (d) ContainsCell / IntersectsCell of the loop and of the polygon made of it
+	c06LatticeCells(o, pts, desc, func(yield func(id s2.CellID, cut, cin, cout bool)) {
+		for _, mc := range c.Cells {
+			yield(emb.FromFaceIJ(mc.C[0], mc.C[1], mc.C[2], mc.C[3]), mc.Cut, mc.Cin, mc.Cout)
+		}
+	})
+
 	// (c) CrossingEdgeQuery
 	ceq := s2.NewCrossingEdgeQuery(idx)
 	types := []s2.CrossingType{s2.CrossingTypeInterior, s2.CrossingTypeAll}
@@ -1319,6 +1422,100 @@ func opC06Lattice(raw json.RawMessage, o *Out) {
 							o.Fail("c06lattice/CrossingsEdgeMap-vs-model/"+tnames[tn]+"/"+names[id], "edge %d of %s: in result = %v, exact model %s: %s", e, names[id], meSet[e], w, what)
 						}
 					}
+				}
+			}
+		}
+	}
+}
+
+// c06LatticeCells checks ContainsCell / IntersectsCell of a lattice loop (as Loop and as
+// Polygon) whose edges span several cube faces.
+//   - cells of levels 0 and 1 (lattice corners): the model's demands (model yields them):
+//     cut => not contained and intersecting; a corner certainly inside => intersecting;
+//     a corner certainly outside => not contained;
+//   - deeper cells along every edge (descendants of the index cells) and the first / last leaf
+//     of every index cell: the same demands derived by examining every edge directly with the
+//     exact predicate (an edge properly crossing a side of the cell; the cell centre inside).
+func c06LatticeCells(o *Out, pts []s2.Point, desc string, model func(yield func(id s2.CellID, cut, cin, cout bool))) {
+	cp := func() []s2.Point { return append([]s2.Point(nil), pts...) }
+	loop := s2.LoopFromPoints(cp())
+	poly := s2.PolygonFromLoops([]*s2.Loop{s2.LoopFromPoints(cp())})
+	regs := []s2.Region{loop, poly}
+	rnames := []string{"Loop", "Polygon"}
+	demand := func(id s2.CellID, cut, in, out bool, src string) {
+		cell := s2.CellFromCellID(id)
+		for r, reg := range regs {
+			gc, gi := reg.ContainsCell(cell), reg.IntersectsCell(cell)
+			o.Count("lattice_cell_relations_checked")
+			what := fmt.Sprintf("cell %v (level %d) [%s: cut=%v inside-witness=%v outside-witness=%v], %s", id, emb.RawLevel(id), src, cut, in, out, desc)
+			if (cut || in) && !gi {
+				o.Fail("c06lattice/IntersectsCell/"+src+"/"+rnames[r], "%s.IntersectsCell = false: %s", rnames[r], what)
+			}
+			if (cut || out) && gc {
+				o.Fail("c06lattice/ContainsCell/"+src+"/"+rnames[r], "%s.ContainsCell = true: %s", rnames[r], what)
+			}
+		}
+	}
+	model(func(id s2.CellID, cut, cin, cout bool) {
+		if cut {
+			o.Count("lattice_cells_cut")
+		}
+		demand(id, cut, cin, cout, "model")
+	})
+	// examining every edge directly
+	n := len(pts)
+	direct := func(id s2.CellID) {
+		cell := s2.CellFromCellID(id)
+		cut := false
+		for k := 0; k < 4 && !cut; k++ {
+			a, b := cell.Vertex(k), cell.Vertex((k+1)&3)
+			for e := 0; e < n; e++ {
+				if s2.CrossingSign(a, b, pts[e], pts[(e+1)%n]) == s2.Cross {
+					cut = true
+					break
+				}
+			}
+		}
+		center := id.Point()
+		in := s2.VerifLoopBruteForceContains(loop, center)
+		demand(id, cut, in, !in, "direct")
+	}
+	seen := map[s2.CellID]bool{}
+	add := func(id s2.CellID) {
+		if !seen[id] {
+			seen[id] = true
+			direct(id)
+		}
+	}
+	for e := 0; e < n; e++ {
+		a, b := pts[e], pts[(e+1)%n]
+		for t := 1; t < 12; t++ {
+			x := s2.Point{Vector: a.Mul(float64(12 - t)).Add(b.Mul(float64(t))).Normalize()}
+			leaf := s2.CellFromPoint(x).ID()
+			path := emb.RawPath(leaf)
+			face := int(uint64(leaf) >> 61)
+			for _, lv := range []int{2, 4, 7, 12} {
+				id := emb.RawID(face, path[:lv])
+				add(id)
+				// the four cells sharing the parent (the edge passes next to them)
+				for k := 0; k < 4; k++ {
+					add(emb.RawID(face, append(append([]int(nil), path[:lv-1]...), k)))
+				}
+			}
+		}
+	}
+	for _, idx := range []*s2.ShapeIndex{s2.VerifLoopIndex(loop), s2.VerifPolygonIndex(poly)} {
+		idx.Build()
+		for _, ic := range s2.VerifIndexCells(idx) {
+			add(s2.CellID(w2RangeMin(ic.ID)))
+			add(s2.CellID(w2RangeMax(ic.ID)))
+			face := int(uint64(ic.ID) >> 61)
+			path := emb.RawPath(ic.ID)
+			if len(path) < 29 {
+				for k := 0; k < 4; k++ {
+					ch := emb.RawID(face, append(append([]int(nil), path...), k))
+					add(s2.CellID(w2RangeMin(ch)))
+					add(s2.CellID(w2RangeMax(ch)))
 				}
 			}
 		}
